@@ -15,12 +15,18 @@ class Tracer:
         self.names = [n for n, _ in named]
         self.sigs = [s for _, s in named]
         self.buf = deque(maxlen=depth)
+        self.waiting = []          # witness dicts that want the window around "now"
 
     def signals(self):
         return self.sigs
 
     def step(self, v, c):
         self.buf.append([c] + [v[s] for s in self.sigs])
+        if self.waiting:
+            w = self.window()
+            for d in self.waiting:
+                d["window"] = w
+            self.waiting = []
         return None
 
     def window(self):
@@ -29,16 +35,19 @@ class Tracer:
 
 class Viol:
     """Violation list of one case: first witness per key is kept in full, the rest are counted."""
-    def __init__(self, limit=3):
+    def __init__(self, limit=3, tracer=None):
         self.items = []
         self.counts = {}
         self.limit = limit
+        self.tracer = tracer       # set it to get the pin window at the moment of each violation
 
     def add(self, key, what, **witness):
         n = self.counts.get(key, 0)
         self.counts[key] = n + 1
         if n < self.limit:
             self.items.append((key, what, witness))
+            if self.tracer is not None:
+                self.tracer.waiting.append(witness)
 
     def __bool__(self):
         return bool(self.items)
